@@ -436,4 +436,11 @@ def r08_alien_chunks(ctx):
         ctx.functions.add(q)
 
 
-RULES = [('R08-alien', r08_alien_chunks), ('R08-induction', r08_induction), ('R08.2', r08_writer), ('R08.3', r08_reader), ('R08.5', r08_clip), ('R08.1', r08_vlq), ('R08.4', r08_header), ('R08.6', r08_debug)]
+def r08_codec(ctx):
+    """Text events: the payload bytes become the text through encode_string/decode_string and nothing else (bodies shared with
+    C17 R17.4) - the scenarios use symbolic text, so stripping, normalising or caching inside the helpers is decided here."""
+    from . import c17
+    ctx.borrow(c17.r17_4, 'R08.7')
+
+
+RULES = [('R08.7', r08_codec), ('R08-alien', r08_alien_chunks), ('R08-induction', r08_induction), ('R08.2', r08_writer), ('R08.3', r08_reader), ('R08.5', r08_clip), ('R08.1', r08_vlq), ('R08.4', r08_header), ('R08.6', r08_debug)]
